@@ -397,30 +397,7 @@ func buildUpdatedFields(input *TaskInput) []string {
 func applySetUpdates(dir string, opts GlobalOptions, id string, updates map[string]string, agentID string, quiet bool) error {
 	lockPath := filepath.Join(dir, "lock")
 	eventsPath := getEventsPath(dir)
-
-	// Handle result.path + result.summary (requires file I/O before lock)
-	resultPath, hasPath := updates["result.path"]
-	resultSummary, hasSummary := updates["result.summary"]
-	if hasPath || hasSummary {
-		if !hasPath {
-			return errors.New("result.summary requires result.path=")
-		}
-		if !hasSummary {
-			return errors.New("result.path requires result.summary=")
-		}
-		if err := writeResultEvent(dir, opts, id, resultSummary, resultPath); err != nil {
-			return err
-		}
-		delete(updates, "result.path")
-		delete(updates, "result.summary")
-		// If no other updates, we're done
-		if len(updates) == 0 {
-			if !quiet {
-				fmt.Println(id)
-			}
-			return nil
-		}
-	}
+	repoDir := filepath.Dir(dir)
 
 	return withLock(lockPath, syscall.LOCK_EX, func() error {
 		graph, err := loadGraph(dir)
@@ -436,46 +413,10 @@ func applySetUpdates(dir string, opts GlobalOptions, id string, updates map[stri
 			return fmt.Errorf("unknown task id %s", id)
 		}
 
-		// Epics cannot have state or claim
-		if isEpic(task) {
-			if _, hasState := updates["state"]; hasState {
-				return errors.New("epics do not have state")
-			}
-			if _, hasClaim := updates["claim"]; hasClaim {
-				return errors.New("epics cannot be claimed")
-			}
-		}
-
-		if epicID, ok := updates["epic"]; ok && epicID != "" && !isEpic(task) {
-			if _, pruned := graph.Tombstones[epicID]; pruned {
-				return prunedErr(epicID)
-			}
-			epic, ok := graph.Tasks[epicID]
-			if !ok {
-				return fmt.Errorf("unknown epic id %s", epicID)
-			}
-			if !epic.IsEpic {
-				return fmt.Errorf("task %s is not an epic", epicID)
-			}
-		}
-
-		now := time.Now().UTC()
-
-		// Build events using pure function, passing I/O-dependent body resolver
-		events, remainingUpdates, err := buildSetEvents(id, task, updates, agentID, now, identityBodyResolver)
+		events, err := buildUpdateEvents(graph, repoDir, id, task, updates, agentID, time.Now().UTC())
 		if err != nil {
 			return err
 		}
-
-		// Check for any unhandled keys
-		if len(remainingUpdates) > 0 {
-			var unknown []string
-			for key := range remainingUpdates {
-				unknown = append(unknown, key)
-			}
-			return fmt.Errorf("unknown keys: %s", strings.Join(unknown, ", "))
-		}
-
 		if err := appendEvents(eventsPath, events); err != nil {
 			return err
 		}
@@ -484,6 +425,79 @@ func applySetUpdates(dir string, opts GlobalOptions, id string, updates map[stri
 		}
 		return nil
 	})
+}
+
+// buildUpdateEvents validates a whole set request (result attachment included)
+// against the current graph and returns every event it produces, so the caller
+// can commit them in one append: the request applies completely or not at all.
+func buildUpdateEvents(graph *Graph, repoDir, id string, task *Task, updates map[string]string, agentID string, now time.Time) ([]Event, error) {
+	var events []Event
+
+	// Handle result.path + result.summary
+	resultPath, hasPath := updates["result.path"]
+	resultSummary, hasSummary := updates["result.summary"]
+	if hasPath || hasSummary {
+		if !hasPath {
+			return nil, errors.New("result.summary requires result.path=")
+		}
+		if !hasSummary {
+			return nil, errors.New("result.path requires result.summary=")
+		}
+		event, err := buildResultEvent(repoDir, task, resultSummary, resultPath, now)
+		if err != nil {
+			return nil, err
+		}
+		events = append(events, event)
+		rest := make(map[string]string, len(updates))
+		for key, value := range updates {
+			if key != "result.path" && key != "result.summary" {
+				rest[key] = value
+			}
+		}
+		updates = rest
+		if len(updates) == 0 {
+			return events, nil
+		}
+	}
+
+	// Epics cannot have state or claim
+	if isEpic(task) {
+		if _, hasState := updates["state"]; hasState {
+			return nil, errors.New("epics do not have state")
+		}
+		if _, hasClaim := updates["claim"]; hasClaim {
+			return nil, errors.New("epics cannot be claimed")
+		}
+	}
+
+	if epicID, ok := updates["epic"]; ok && epicID != "" && !isEpic(task) {
+		if _, pruned := graph.Tombstones[epicID]; pruned {
+			return nil, prunedErr(epicID)
+		}
+		epic, ok := graph.Tasks[epicID]
+		if !ok {
+			return nil, fmt.Errorf("unknown epic id %s", epicID)
+		}
+		if !epic.IsEpic {
+			return nil, fmt.Errorf("task %s is not an epic", epicID)
+		}
+	}
+
+	// Build events using pure function, passing I/O-dependent body resolver
+	setEvents, remainingUpdates, err := buildSetEvents(id, task, updates, agentID, now, identityBodyResolver)
+	if err != nil {
+		return nil, err
+	}
+
+	// Check for any unhandled keys
+	if len(remainingUpdates) > 0 {
+		var unknown []string
+		for key := range remainingUpdates {
+			unknown = append(unknown, key)
+		}
+		return nil, fmt.Errorf("unknown keys: %s", strings.Join(unknown, ", "))
+	}
+	return append(events, setEvents...), nil
 }
 
 // buildSetEvents generates the event list for a set command.
